@@ -27,6 +27,7 @@ static Bytes ref_encode(const Bytes &p, bool sof) {
 static bool lib_encode(const Case &c, const Bytes &p, Bytes &out, int &rc) {
     ep::ScriptSource src(c.kinds & 1, p);
     ep::ScriptSink snk(c.kinds & 2);
+    if (c.kinds & 4) { static const int pat[5] = {1, 1, 2, 1, 3}; for (size_t i = 0; i < 2 * p.size() + 6; i++) snk.script.steps.push_back(pat[i % 5]); }   // a sink that accepts fewer octets than offered (short writes are not errors)
     RFC1055Context ctx; ctx_init(ctx, c.sof);
     rc = rfc1055_encode(&ctx, &src.src, &snk.snk);
     out = snk.got;
@@ -239,7 +240,7 @@ static void run() {
     size_t maxlen = a.thorough() ? 10 : 8;
     vp::stats().rule = vp::fmt("enum: all strings of length <= %zu over {END, ESC, ESC_END, ESC_ESC, 'A'} as payloads (round trip, structure, bound, concatenation), as raw decoder input "
                                "(per-call reference at frame boundaries), as garbage prefixes before END + 3 frames (3 payload triples) and with source/sink error injection at every position "
-                               "(lengths <= 5); classic and start-of-frame mode; octet- and chunk-style endpoints; every 1- and 2-octet payload and raw input over all 256 octet values, ESC followed by every octet; plus random full-alphabet payloads up to 1 KiB", maxlen);
+                               "(lengths <= 5); classic and start-of-frame mode; octet- and chunk-style endpoints, chunk sinks with short writes for the encoder; a control octet behind every run length 0..600 of ordinary octets; every 1- and 2-octet payload and raw input over all 256 octet values, ESC followed by every octet; plus random full-alphabet payloads up to 1 KiB", maxlen);
     vp::stats().exhaustive = true;
     static const uint8_t ALPHA[5] = {END, ESC, ESC_END, ESC_ESC, 'A'};
     uint64_t idx = 0;
@@ -251,7 +252,7 @@ static void run() {
             for (size_t i = 0; i < len; i++) { s[i] = ALPHA[x % 5]; x /= 5; }
             int kinds = (int)(idx / a.nshards % 4);
             for (int sof = 0; sof < 2; sof++) {
-                run_case({'p', (bool)sof, kinds, s, 0});
+                run_case({'p', (bool)sof, kinds | ((idx / a.nshards / 4 % 2) ? 4 : 0), s, 0});
                 run_case({'r', (bool)sof, (kinds + 1) % 4, s, 0});
                 run_case({'g', (bool)sof, (kinds + 2) % 4, s, (int)(code % 3)});
                 if (len <= 5) run_case({'e', (bool)sof, (kinds + 3) % 4, s, 0});
@@ -266,16 +267,27 @@ static void run() {
     for (unsigned x = 0; x < 256; x++) {
         if (x % a.nshards != a.shard) continue;
         for (int sof = 0; sof < 2; sof++) {
-            run_case({'p', (bool)sof, (int)(x % 4), Bytes{(uint8_t)x}, 0});
+            run_case({'p', (bool)sof, (int)(x % 8), Bytes{(uint8_t)x}, 0});
             run_case({'r', (bool)sof, (int)((x + 1) % 4), Bytes{ESC, (uint8_t)x, END}, 0});
             run_case({'r', (bool)sof, (int)((x + 2) % 4), Bytes{END, ESC, (uint8_t)x, 'B', END, 'C', END}, 0});
             run_case({'g', (bool)sof, (int)((x + 3) % 4), Bytes{'A', ESC, (uint8_t)x}, (int)(x % 3)});
             for (unsigned y = 0; y < 256; y++) {
-                run_case({'p', (bool)sof, (int)((x + y) % 4), Bytes{(uint8_t)x, (uint8_t)y}, 0});
+                run_case({'p', (bool)sof, (int)((x + y) % 8), Bytes{(uint8_t)x, (uint8_t)y}, 0});
                 if (sof == 0) run_case({'r', false, (int)((x + y) % 4), Bytes{(uint8_t)x, (uint8_t)y, END}, 0});
             }
         }
         vp::nontrivial(vp::mix(x, 424242)); vp::cls("full-alphabet-1-2-octets", 2 * (4 + 256) + 256);
+    }
+    // a control octet behind a run of k ordinary octets, for every k up to 600 (an encoder that gathers runs has its boundaries somewhere in there)
+    for (size_t k = a.shard; k <= 600; k += a.nshards) {
+        for (int sof = 0; sof < 2; sof++) for (uint8_t ctl : {END, ESC}) {
+            Bytes p(k); for (size_t i = 0; i < k; i++) p[i] = (uint8_t)('a' + i % 23);
+            p.push_back(ctl);
+            run_case({'p', (bool)sof, (int)((k + sof) % 8), p, 0});
+            Bytes q = p; for (size_t i = 0; i < k; i++) q.push_back((uint8_t)('B' + i % 19)); q.push_back(ctl == END ? ESC : END); q.push_back('z');
+            run_case({'p', (bool)sof, (int)((k + sof + 3) % 8), q, 0});
+        }
+        vp::nontrivial(vp::mix(k, 515151)); vp::cls("control-octet-behind-run-of-k-ordinary-octets", 8);
     }
     // random payloads, full alphabet, up to 1 KiB
     vp::Rng rng(a.seed * 6151 + a.shard);
@@ -286,7 +298,7 @@ static void run() {
         for (auto &b : p) b = rng.chance(1, 3) ? ALPHA[rng.below(4)] : rng.byte();
         int kinds = (int)rng.below(4);
         bool sof = rng.chance(1, 2);
-        run_case({'p', sof, kinds, p, 0});
+        run_case({'p', sof, kinds | (rng.chance(1, 3) ? 4 : 0), p, 0});
         if (len <= 40) run_case({'e', sof, kinds, p, 0});
         run_case({'r', sof, kinds, p, 0});
         vp::nontrivial(vp::fnv(p.data(), p.size(), 99));
